@@ -593,7 +593,7 @@ func (engine) Minimize(raw json.RawMessage, still func(json.RawMessage) bool) js
 	}
 	var atoms []atom
 	for i := range c.Mod.Pkgs {
-		for _, f := range []string{"depfunc", "depmethod", "pure", "nonnil", "local", "ignore", "initialism", "rangeint", "ignoreu", "twofiles", "generic", "ifaceuse", "test", "xtest", "tagfile", "osfiles", "conf"} {
+		for _, f := range []string{"depfunc", "depmethod", "pure", "nonnil", "local", "ignore", "initialism", "rangeint", "ignoreu", "twofiles", "generic", "ifaceuse", "common", "test", "xtest", "tagfile", "osfiles", "conf"} {
 			atoms = append(atoms, atom{i, f})
 		}
 	}
@@ -646,6 +646,8 @@ func (engine) Minimize(raw json.RawMessage, still func(json.RawMessage) bool) js
 				}
 			case "ifaceuse":
 				p.IfaceUse = false
+			case "common":
+				p.Common = 0
 			case "test":
 				p.Test = false
 			case "xtest":
